@@ -10,17 +10,24 @@
 //!   dv / dvf              the variant twins
 //!   hz seed               (not modelled) the theorems' oracle premises on the real BGZF writer / flate2 decoder
 //!   wk wkv wp wpv ix iv vf fw dw dwf dwv dwvf   see shared/c20_dispatch.rs (models NV.Util.Dispatch, NV.Util.Fill)
+//!   aw adw adwf adwx adwv adwvf   see shared/c20_async.rs (model NV.Util.AsyncFill: the async reader builders)
+//!   cvsb cvbs   see shared/c20_convert.rs (model NV.Util.Convert: one record SAM -> BAM, BAM -> SAM)
 //! Implementation-only oracles (the property itself, public generic builders only):
 //!   art fmt seed nrec hdr rdr      write through alignment::io::writer::Builder, read back through
 //!                                  alignment::io::reader::Builder::default() (autodetect) over reader `rdr`
 //!   acv src dst seed nrec hdr      generic reader of src piped into generic writer of dst, read back
+//!   acx src dst text refs          the same for an explicitly given data set (regression cases of repaired classes)
 //!   vrt / vcv                      the variant twins
 //!   aas / vas                      async builders against the sync ones
 
 #[path = "../shared/c20_align.rs"]
 mod align;
+#[path = "../shared/c20_async.rs"]
+mod asyncrd;
 #[path = "../shared/c20_common.rs"]
 mod common;
+#[path = "../shared/c20_convert.rs"]
+mod convert;
 #[path = "../shared/c20_detect.rs"]
 mod detect;
 #[path = "../shared/c20_dispatch.rs"]
@@ -35,14 +42,18 @@ fn generate(rng: &mut Rng, tier: &str, w: &mut CaseWriter) {
     align::generate(rng, tier, w);
     variant::generate(rng, tier, w);
     dispatch::generate(rng, tier, w);
+    asyncrd::generate(rng, tier, w);
+    convert::generate(rng, tier, w);
 }
 
 fn run(c: &Case) -> Obs {
     match c.kind.as_str() {
         "da" | "daf" | "dv" | "dvf" | "hz" => detect::run(c),
-        "art" | "atx" | "acv" | "aas" => align::run(c),
+        "art" | "atx" | "acv" | "acx" | "aas" => align::run(c),
         "vrt" | "vtx" | "vcv" | "vcx" | "vas" => variant::run(c),
         "wk" | "wkv" | "wp" | "wpv" | "ix" | "iv" | "vf" | "fw" | "dw" | "dwf" | "dwv" | "dwvf" => dispatch::run(c),
+        "cvsb" | "cvbs" => convert::run(c),
+        "aw" | "adw" | "adwf" | "adwx" | "adwv" | "adwvf" => asyncrd::run(c),
         _ => Obs::fail("-", "harness-unknown-kind", &c.kind),
     }
 }
